@@ -21,6 +21,13 @@ def main():
             p = subprocess.run([os.path.join(HERE, "check"), pid, "quick"], env=env, capture_output=True, text=True, cwd=HERE)
             lines = [l for l in p.stdout.splitlines() if l.startswith(("VIOLATION", "KNOWN-FINDING", "INFRASTRUCTURE"))]
             res[pid] = {"exit": p.returncode, "lines": lines}
+            for l in lines:
+                if l.startswith("VIOLATION") and "replay=" in l:
+                    try:
+                        rp = json.load(open(l.split("replay=")[1].split(" ")[0]))
+                        res[pid]["replay_excerpt"] = {k: (str(v)[:300]) for k, v in rp.items() if k in ("line", "why", "broken_correspondence", "broken_theorems")}
+                    except Exception:
+                        pass
             print(pid, "exit", p.returncode, *lines, sep="\n  ")
             for l in lines:
                 if l.startswith("VIOLATION") and "replay=" in l:
@@ -34,6 +41,15 @@ def main():
         tag = hashlib.sha256(wt.encode()).hexdigest()[:10]
         shutil.rmtree(os.path.join(HERE, "build", "cargo-alt-" + tag), ignore_errors=True)
         shutil.rmtree(os.path.join(HERE, "build", "harness-alt-" + tag), ignore_errors=True)
+    # record what the checks said about this seeded change (kept with the seed)
+    rf = os.path.join(d, "detection.json")
+    old = json.load(open(rf)) if os.path.exists(rf) else {}
+    head = subprocess.run(["git", "-C", HERE, "rev-parse", "--short", "HEAD"], capture_output=True, text=True).stdout.strip()
+    for pid, r in res.items():
+        old[pid] = {"verif_commit": head, "cmd": "lib/seedtest.py %s %s  (= git apply patch.diff on a scratch worktree of /repo HEAD, ./check %s quick with VERIF_REPO)" % (os.path.relpath(d, HERE), pid, pid),
+                    "exit": r["exit"], "reported": [l for l in r["lines"]], "detected": r["exit"] == 1 and any(l.startswith("VIOLATION") for l in r["lines"]),
+                    "replay_excerpt": r.get("replay_excerpt")}
+    json.dump(old, open(rf, "w"), indent=1)
     return res
 
 
